@@ -18,6 +18,7 @@ import (
 	"github.com/sahandsafizadeh/qeep/component/layers"
 	"github.com/sahandsafizadeh/qeep/component/layers/activations"
 	"github.com/sahandsafizadeh/qeep/component/losses"
+	"github.com/sahandsafizadeh/qeep/component/optimizers"
 	"github.com/sahandsafizadeh/qeep/tensor"
 
 	"qeepverif/internal/fw"
@@ -34,7 +35,8 @@ func init() {
 		ID: "C20",
 		Rule: "race-detector monitor: each run builds a shared pool (tracked and untracked leaves, interior tracked results, spent tensors, gradient tensors, a large tensor, one FC layer with tracked parameters, activation and loss objects) and starts G in {2,4,8,16,32} goroutines under GOMAXPROCS in {1,2,4,16} behind a start barrier. Every goroutine executes its own seeded job list: random forward programs over pool tensors and its own results (all element-wise / shape / indexing / reduction / Dot / MatMul / Concat operations, implicit broadcasting between pool tensors of different shapes), whole-tensor reducers, comparisons and Equals, FC -> activation -> loss evaluation on the shared layer (graph construction over shared tracked parameters, never back-propagated), private graphs over private tracked leaves and shared UNTRACKED tensors that are back-propagated, and RandU / RandN / initializer calls; runtime.Gosched() and spins are injected between calls. " +
 			"Oracle: zero DATA RACE reports in the detector logs (deduplicated by the pair of outermost library frames) and every job result bit-identical to the same job list executed sequentially afterwards (random constructors: shape and support only). A deliberately racy canary in the harness must be reported by the detector, otherwise the run is inconclusive. " +
-			"Non-trivial: every run with >= 2 goroutines; distinct = (G, GOMAXPROCS, run seed). The evidence lists which pairs of entry points were observed overlapping in time on the same shared operand. Later additions: the five ways a shared untracked tensor can enter a private graph (Mul, ElMax, ElMin, Patch, Concat); shared tensors of 12 288..20 000 elements with magnitudes over 12 decades; never-used comparison masks and tensors with values at the edges of the float range (Exp overflow, Log 0) in the pool.",
+			"Non-trivial: every run with >= 2 goroutines; distinct = (G, GOMAXPROCS, run seed). The evidence lists which pairs of entry points were observed overlapping in time on the same shared operand. Later additions: the five ways a shared untracked tensor can enter a private graph (Mul, ElMax, ElMin, Patch, Concat); shared tensors of 12 288..20 000 elements with magnitudes over 12 decades; never-used comparison masks and tensors with values at the edges of the float range (Exp overflow, Log 0) in the pool." +
+			" Round 4: one optimizer object shared by all goroutines steps each goroutine's private tensor after its private back-propagation.",
 		Assumptions: []string{
 			"the Go race detector is happens-before based: it reports unsynchronised conflicting accesses of executed code whether or not they collide in time, and says nothing about code the workload did not execute",
 			"no goroutine calls BackPropagate or ResetGradContext on a tensor reachable from another goroutine's graph (the statement's proviso)",
@@ -76,6 +78,7 @@ type c20pool struct {
 		Forward(...tensor.Tensor) (tensor.Tensor, error)
 	}
 	mse  *losses.MSE
+	opt  *optimizers.SGD // one optimizer object shared by all goroutines, each stepping only its private tensors
 	D, O int
 }
 
@@ -148,6 +151,7 @@ func c20BuildPool(r *rand.Rand) (*c20pool, error) {
 	sm, _ := activations.NewSoftmax(&activations.SoftmaxConfig{Dim: 1})
 	p.acts = append(p.acts, activations.NewRelu(), activations.NewLeakyRelu(nil), activations.NewSigmoid(), activations.NewTanh(), sm)
 	p.mse = losses.NewMSE()
+	p.opt = optimizers.NewSGD(&optimizers.SGDConfig{LearningRate: 0.25})
 	return p, nil
 }
 
@@ -469,6 +473,17 @@ func c20Run(p *c20pool, jobs []c20job, inject *rand.Rand, start time.Time, rec *
 			}
 			if p.ts[u].Gradient() != nil {
 				return out, fmt.Errorf("shared untracked tensor %d received a gradient", u)
+			}
+			// the private leaf is stepped through the optimizer object that all goroutines share
+			wp := w
+			if e := span("shared-optimizer.Update(private tensor)", nil, func() error { return p.opt.Update(&wp) }); e != nil {
+				return out, e
+			}
+			if wp == w || wp == nil {
+				return out, fmt.Errorf("Update did not replace the private tensor")
+			}
+			if e := hashBits(&out, wp); e != nil {
+				return out, e
 			}
 		case "random":
 			r := rand.New(rand.NewSource(j.seed))
